@@ -50,6 +50,7 @@ type Contract struct {
 	Props      []string
 	Requires   []*Clause
 	Ensures    []*Clause
+	Records    []*Clause // definitional ghost call records: assumed at call sites, not checked in the body
 	Assigns    []*Clause
 	HasAssigns bool // explicit assigns clause present
 	AssignsAll bool
@@ -59,6 +60,7 @@ type Contract struct {
 	NoSafety   bool
 	CheckNil   bool
 	MayPanic   bool
+	TrustPre   map[string]string // "callee requires label" -> justification: precondition assumed at call sites in this function
 	Loops      map[int]*LoopContract
 	Unfolds    []*Clause
 	Asserts    []*Clause
@@ -365,7 +367,7 @@ func (cs *ContractSet) ParseContractFile(path, pkgPath string) error {
 			} else {
 				errf(l, "props outside of func/lemma")
 			}
-		case "requires", "ensures", "assert":
+		case "requires", "ensures", "assert", "records":
 			if curLemma != nil && kw == "requires" {
 				if c := mkClause(l, rest); c != nil {
 					curLemma.Hyps = append(curLemma.Hyps, c)
@@ -385,6 +387,8 @@ func (cs *ContractSet) ParseContractFile(path, pkgPath string) error {
 				cur.Requires = append(cur.Requires, c)
 			case "ensures":
 				cur.Ensures = append(cur.Ensures, c)
+			case "records":
+				cur.Records = append(cur.Records, c)
 			case "assert":
 				cur.Asserts = append(cur.Asserts, c)
 			}
@@ -437,6 +441,20 @@ func (cs *ContractSet) ParseContractFile(path, pkgPath string) error {
 		case "nosafety":
 			if cur != nil {
 				cur.NoSafety = true
+			}
+		case "trustpre":
+			// trustpre <callee> <label> : <justification>
+			if cur != nil {
+				fs := strings.SplitN(rest, ":", 2)
+				ws := strings.Fields(fs[0])
+				if len(ws) != 2 || len(fs) != 2 {
+					errf(l, "trustpre <callee> <label> : <justification>")
+					continue
+				}
+				if cur.TrustPre == nil {
+					cur.TrustPre = map[string]string{}
+				}
+				cur.TrustPre[ws[0]+" "+ws[1]] = strings.TrimSpace(fs[1])
 			}
 		case "may_panic":
 			if cur != nil {
@@ -607,7 +625,7 @@ func isQualified(key string) bool {
 		return true
 	}
 	// a.b — qualified if a contains '/' or is a known std package-like lower-case identifier followed by capital? ambiguous with T.Method (iface)
-	if strings.Contains(key, "/") {
+	if strings.Contains(key, "/") || strings.HasSuffix(key, ".*") {
 		return true
 	}
 	parts := strings.Split(key, ".")
